@@ -6,6 +6,16 @@ import z3
 
 from sx import core as S, env as E, npshim, ffi, cfg, pl, plh
 
+
+def _clear_caches(ns_):
+    """empty the configurator-level caches if the current tree has any (lru_cache on the class, pinned tree); a no-op for per-instance caches"""
+    for name in ("ge_polyhedron", "leafs"):
+        f = ns_.cc.StingyConfigurator.__dict__.get(name)
+        f = getattr(f, "fget", f)
+        cc_ = getattr(f, "cache_clear", None)
+        if cc_ is not None:
+            cc_()
+
 PROPERTY = "C14"
 REGIONS = ["defaulted-xor", "defaulted-any", "no-default", "user-positive", "user-negative", "user-tie", "two-levels", "user-zero", "user-on-compound",
            "prio-minus-2-column", "key-strictly-ordered-pair-exists"]
@@ -20,7 +30,7 @@ ASSUMPTIONS = ["M1", "M7 real encoder on concrete configurators", "M8 bit-alloca
 
 
 def functions(ns):
-    return [ns.cc.Any.__init__, ns.cc.Xor.__init__, ns.cc.StingyConfigurator.default_prios, ns.cc.StingyConfigurator.ge_polyhedron.fget.__wrapped__,
+    return [ns.cc.Any.__init__, ns.cc.Xor.__init__, ns.cc.StingyConfigurator.default_prios, ns.cc.StingyConfigurator.ge_polyhedron.fget,
             ns.pnd.ge_polyhedron_config._vectors_from_prios, ns.pnd.integer_ndarray.ndint_compress, ns.pnd.variable_ndarray.construct]
 
 
@@ -55,7 +65,7 @@ def run_inst(spec, run):
     ns = E.load_repo()
     mu = spec.get("mutant")
     model_spec = spec["model"]
-    ns.cc.StingyConfigurator.ge_polyhedron.fget.cache_clear()
+    _clear_caches(ns)
     try:
         c0 = pl.build(ns, model_spec, {})
     except Exception as e:    # noqa
@@ -88,7 +98,7 @@ def run_inst(spec, run):
             for vec in (x, y):
                 for i in range(M.shape[0]):
                     ctx.assume(sum((int(M[i, j + 1]) * vec[j].e for j in range(len(cols)) if M[i, j + 1] != 0), z3.IntVal(0)) >= int(M[i, 0]))
-            ns.cc.StingyConfigurator.ge_polyhedron.fget.cache_clear()
+            _clear_caches(ns)
             c1 = pl.build(ns, model_spec, {})
             err = w = None
             try:
